@@ -85,9 +85,8 @@ def rule_key(ctx):
     ctx.check('key', 'ctor-field-order', canon(tn.ret_expr()) == 'TxOutpoint::TxOutpoint{txid: a1, index: a2}', tn, canon(tn.ret_expr()))
     ser = prog.one('<blockchain::proto::tx::TxOutpoint as blockchain::proto::ToRaw>::to_bytes')
     ctx.touch(ser, tn)
-    vec = [l for l in range(len(ser.locals)) if ser.names.get(l) == 'bytes' or (ser.local_ty(l) == 'std::vec::Vec<u8>' and any(d[0] == 'call' and mir.method_name(d[2].name) == 'with_capacity' for d in ser.defs().get(l, [])))]
-    seq = util.builder_sequence(ser, vec[0]) if vec else []
-    shape = [(s[1], s[2], s[3]) for s in seq]
+    bp = util.byte_pieces(ser)
+    shape = bp[0] if bp and bp[1] else []
     ctx.check('key', 'serializer=txid||index-le', shape == [('extend', ['self.txid'], 0), ('extend', ['to_le_bytes(self.index)'], 0)], ser, 'TxOutpoint::to_bytes = %s' % shape)
     ctx.check('key', 'index-is-u32', dict(prog.adt_fields('blockchain::proto::tx::TxOutpoint') or []).get('index') == 'u32', ser, 'index: u32 (4 bytes)')
     # enumerate index over a forward iteration of all outputs
